@@ -62,6 +62,14 @@ def cap_cfgs():
     c.append(cap("WRITE", 16, 16, cnt=1, nblk=5, AT_LIMIT_SHORT=None, **X3, **N, **T))
     c.append(cap("WRITE", 16, 16, cnt=1, nblk=5, AT_LIMIT=None, **X3, **N, **T))
     c.append(cap("WRITE", 16, 16, cnt=1, **X2, **N, **T))      # limit 2, current key of 0..2 blocks (below and at the limit)
+    # short last block of the device opening a NEW key (checksum length = data_size, T-style trace)
+    c.append(cap("WRITE", 16, 16, cnt=1, AT_END_NEWKEY=None, **N))
+    c.append(cap("WRITE", 48, 48, cnt=1, AT_END_NEWKEY=None, **N, **T))
+    # channel block numbers k*2^32 + small, up to 2^40 (address-translating device model): key fsblk is 64 bit
+    c.append(cap("WRITE", 16, 16, cnt=1, BIGBLK=None, **N))
+    c.append(cap("WRITE", 48, 48, cnt=1, BIGBLK=None, **N, **T))
+    c.append(cap("ZEROOUT", 16, 48, BIGBLK=None, **N, **T))
+    c.append(cap("WRITE_BYTE", 16, 20, BIGBLK=None, **N, **T))
     # thorough
     c.append(cap("WRITE_BYTE", 16, 60, **N, **T))
     c.append(cap("WRITE", 16, 64, cnt=4, offmode=1, **N, **T))
